@@ -96,8 +96,15 @@ ToViewer(a, h) == [via |-> a, to |-> 0 - a, hdr |-> h]
 SocksBad == {"badrsv", "badfrag", "badatyp", "shortsocks"}   \* not a SOCKS5 UDP request
 LludpBad == {"short", "unkmsg"}                              \* cannot be decoded at all
 Kill == {"killc", "killd"}                                   \* CloseCircuit, DisableSimulator
-CKinds == {"msg", "ucc", "banned", "badbody", "dom"} \cup Kill \cup SocksBad \cup LludpBad
-HKinds == {"msg", "ucc", "spoof", "banned", "badbody"} \cup Kill \cup LludpBad
+\* "msg": any valid message; "rmsg": a valid message of a type the proxy itself reacts to on the forwarding
+\* path (RegionHandshake, AgentMovementComplete, AgentDataUpdate, PacketAck, pings, chat, object and
+\* inventory updates, ...).  The property does not tell them apart: whatever the proxy does with such a
+\* message for itself, it is forwarded exactly once, intact, like any other.  Two of them are kinds of
+\* their own from the simulator, so that every circuit in every state sees them in either order:
+\* "rhs" RegionHandshake (first or resent), "amc" AgentMovementComplete.
+Plain == {"msg", "rmsg", "rhs", "amc"}
+CKinds == {"msg", "rmsg", "ucc", "banned", "badbody", "dom"} \cup Kill \cup SocksBad \cup LludpBad
+HKinds == {"msg", "rmsg", "rhs", "amc", "ucc", "spoof", "banned", "badbody"} \cup Kill \cup LludpBad
 
 \* ch: a choice the property leaves to the implementation, bound to what is observed:
 \*   killc / killd: whether CloseCircuit / DisableSimulator makes the proxy regard the circuit as no longer open
@@ -256,7 +263,7 @@ GhostsRight == [][GhostOK']_vars
 
 \* exactly once on an open circuit (pre-state), UseCircuitCode judged on the post-state
 OpenBefore == ev'.h \in Sims /\ sess[ev'.a] # NoSess /\ circ[sess[ev'.a]][ev'.h] = "open"
-DeliveredOnce == [][(ev'.n \in {"C", "H"} /\ (ev'.k \in {"msg"} \cup Kill \/ (ev'.n = "H" /\ ev'.k = "ucc")) /\ OpenBefore)
+DeliveredOnce == [][(ev'.n \in {"C", "H"} /\ (ev'.k \in Plain \cup Kill \/ (ev'.n = "H" /\ ev'.k = "ucc")) /\ OpenBefore)
                       => (out'.may = FALSE /\ Len(out'.sends) = 1)]_vars
 UseCircuitRule == [][(ev'.n = "C" /\ ev'.k = "ucc") =>
                       /\ (out'.sends # <<>>) <=> (sess'[ev'.a] # NoSess /\ ev'.h \in regs[sess'[ev'.a]]
